@@ -63,9 +63,12 @@ size_t merge_existing_groups(econf_file *dest_kf, struct file_entry **fe, econf_
 	  // Check for matching groups
 	  if (!strcmp(uf->file_entry[i - 1].group, ef->file_entry[j].group)) {
 	    new_key = true;
-	    for (size_t k = merge_length; k < i + tmp; k++) {
+	    // Everything merged so far is searched, not only the current run
+	    // of this group: a group can be opened more than once in uf.
+	    for (size_t k = 0; k < i + added_keys; k++) {
 	      // If an existing key is found in ef take the value from ef
-	      if (!strcmp((*fe)[k].key, ef->file_entry[j].key)) {
+	      if (!strcmp((*fe)[k].group, ef->file_entry[j].group) &&
+		  !strcmp((*fe)[k].key, ef->file_entry[j].key)) {
 		free((*fe)[k].value);
 		(*fe)[k].value = ef->file_entry[j].value ? strdup(ef->file_entry[j].value) : strdup("");
 		new_key = false;
